@@ -136,3 +136,32 @@ package runtime
 //@   ensures implies(result1 == nil, noErrorIn(values) && failedDuring == old(failedDuring))
 //@   ensures implies(result1 != nil, failedDuring)
 //@   ensures implies(old(failedDuring), failedDuring)
+
+// Sinks inside <script> elements of generated code (C03, used by the sink obligations):
+//@ lemma js_sink_sq(x) [C03]: inL(x, JS_STR_OUT) ==> inL(x, JS_SQ_SINK) by reglang
+//@ lemma js_sink_dq(x) [C03]: inL(x, JS_STR_OUT) ==> inL(x, JS_DQ_SINK) by reglang
+//@ lemma js_sink_bt(x) [C03]: inL(x, JS_STR_OUT) ==> inL(x, JS_BT_SINK) by reglang
+//@ lemma js_sink_bare(x) [C03]: inL(x, JSON_HTMLSAFE) ==> inL(x, JS_BARE_SAFE) by reglang
+
+// Values placed inside <script> elements: inside a string literal the in-literal
+// escaper is applied (to the string itself, or to its JSON), outside a literal
+// the value is JSON (no '<', '>', '&' - assumed for encoding/json).
+//@ func scriptContent [C03, C10]
+//@   modifies failedDuring
+//@   ensures implies(result1 == nil, failedDuring == old(failedDuring))
+//@   ensures implies(result1 != nil, failedDuring)
+//@   ensures implies(old(failedDuring), failedDuring)
+//@   ensures implies(result1 == nil && insideStringLiteral, inL(result0, JS_STR_OUT))
+//@   ensures implies(result1 == nil && !insideStringLiteral, inL(result0, JSON_HTMLSAFE))
+//@ func ScriptContentInsideStringLiteral [C03, C10]
+//@   modifies failedDuring
+//@   ensures implies(result1 == nil, failedDuring == old(failedDuring))
+//@   ensures implies(result1 != nil, failedDuring)
+//@   ensures implies(old(failedDuring), failedDuring)
+//@   ensures implies(result1 == nil, inL(result0, JS_STR_OUT))
+//@ func ScriptContentOutsideStringLiteral [C03, C10]
+//@   modifies failedDuring
+//@   ensures implies(result1 == nil, failedDuring == old(failedDuring))
+//@   ensures implies(result1 != nil, failedDuring)
+//@   ensures implies(old(failedDuring), failedDuring)
+//@   ensures implies(result1 == nil, inL(result0, JSON_HTMLSAFE))
